@@ -2,7 +2,10 @@ META = {
     "rule": ("exhaustive grid over (n_tasks, n_batches, start_idx, with/without arr) plus seeded random "
              "large values; a case is one call of the real thejoker.utils.batch_tasks checked by the "
              "partition contract (contiguous, non-empty, ordered, exact cover of the range / of "
-             "arr[start:start+n], own start index per task). distinct_nontrivial counts distinct "
+             "arr[start:start+n], own start index per task). A second monitor drives the real "
+             "multiproc_helpers.run_worker with a capturing pool and unsorted / repeated index arrays and demands "
+             "that the tasks handed to pool.map cover the supplied array in the supplied order (and that the "
+             "results come back in task order). distinct_nontrivial counts distinct "
              "(n_tasks, n_batches, start_idx, arr?) tuples with n_batches>1 and n_tasks>1."),
     "shards": {"quick": 1, "thorough": 16},
     "timeout": {"quick": 300, "thorough": 1800},
@@ -94,3 +97,69 @@ def run(ctx):
     # distinct count: every case is a distinct tuple by construction of the grid;
     # random ones may repeat grid ones, so count conservatively the grid's non-trivial ones
     ctx.distinct_count = nontriv
+    # ---------------- the batches the pool actually receives (run_worker) ----------------
+    import os
+    import astropy.units as u
+    import thejoker.multiproc_helpers as mh
+    from thejoker import JokerSamples
+    lib = JokerSamples()
+    Nlib = 97
+    lib["P"] = (np.arange(Nlib) + 1.0) * u.day
+    lib["e"] = np.zeros(Nlib)
+    path = os.path.join(ctx.tmpdir, "c16_lib.hdf5")
+    lib.write(path, overwrite=True)
+
+    class CapturePool:
+        size = 3
+
+        def __init__(self):
+            self.tasks = None
+
+        def map(self, worker, tasks):
+            self.tasks = [tuple(t) for t in tasks]
+            return [worker(t) for t in tasks]
+
+    def ident(task):
+        body = task[0]
+        return np.arange(body[0], body[1]) if isinstance(body, tuple) else np.asarray(body)
+
+    rng = ctx.rng(1)
+    for k in range(ctx.n(300, 3000)):
+        nb = int(rng.choice([1, 2, 3, 5, 8, 13, 97, 120]))
+        kindq = str(rng.choice(["idx-shuffled", "idx-repeats", "idx-sorted", "count", "all"]))
+        pool = CapturePool()
+        kw = dict(n_batches=nb if rng.random() < 0.8 else None)
+        if kindq == "count":
+            n = int(rng.integers(1, Nlib + 1))
+            kw["n_prior_samples"] = n
+            want = np.arange(n)
+        elif kindq == "all":
+            want = np.arange(Nlib)
+        else:
+            n = int(rng.integers(1, Nlib + 1))
+            want = rng.choice(Nlib, size=n, replace=(kindq == "idx-repeats"))
+            if kindq == "idx-sorted":
+                want = np.sort(want)
+            kw["samples_idx"] = want.copy()
+        case = dict(kind=kindq, n_batches=kw["n_batches"], n=int(len(want)), head=want[:8])
+        try:
+            res = mh.run_worker(ident, pool, path, task_args=(), **kw)
+        except Exception as e:
+            ctx.exception(e, "run_worker", case)
+            continue
+        ctx.evaluations += 1
+        ctx.distinct_count += 1 if k < 40 else 0
+        got_tasks = np.concatenate([ident(t) for t in pool.tasks]) if pool.tasks else np.array([])
+        if got_tasks.shape != want.shape or not np.array_equal(got_tasks, want):
+            key = "pool-batches-reordered" if sorted(got_tasks.tolist()) == sorted(want.tolist()) else "pool-batches-wrong-coverage"
+            ctx.violation(key, "the batches handed to pool.map cover %s..., the supplied rows are %s... (in this order)"
+                          % (got_tasks[:8].tolist(), want[:8].tolist()), case)
+            continue
+        got_res = np.concatenate(res) if len(res) else np.array([])
+        if not np.array_equal(got_res, want):
+            ctx.violation("results-not-in-task-order", "run_worker returned results out of task order", case)
+        starts = [t[1] for t in pool.tasks]
+        if any(b <= a for a, b in zip(starts, starts[1:])) or (starts and starts[0] != 0):
+            ctx.violation("wrong-start-index", "task start indices %r" % (starts[:6],), case)
+    ctx.counters["run_worker_calls_monitored"] = ctx.n(300, 3000)
+
